@@ -20,9 +20,10 @@ git -C /repo worktree add -q $CLEAN HEAD || exit 2
 ( cd $WT && cargo test --workspace --no-fail-fast --offline 2>&1 | grep -E "^test result" | awk '{p+=$4; f+=$6} END {print "tests with change: passed=" p " failed=" f}' )
 # 3. demo with and without the change
 sed -i "s#path = \"../..\"#path = \"$WT\"#" $OUT/demo/Cargo.toml
-( cd $OUT/demo && cargo run --offline -q >/dev/null 2>&1; echo "demo with change: exit $?" )
+rundemo() { if [ -f run.sh ]; then bash run.sh >/dev/null 2>&1; else cargo run --offline -q >/dev/null 2>&1; fi; }
+( cd $OUT/demo && rundemo; echo "demo with change: exit $?" )
 sed -i "s#path = \"$WT\"#path = \"$CLEAN\"#" $OUT/demo/Cargo.toml
-( cd $OUT/demo && cargo run --offline -q >/dev/null 2>&1; echo "demo without change: exit $?" )
+( cd $OUT/demo && rundemo; echo "demo without change: exit $?" )
 sed -i "s#path = \"$CLEAN\"#path = \"../..\"#" $OUT/demo/Cargo.toml
 rm -rf $OUT/demo/target
 git -C /repo worktree remove --force $CLEAN
